@@ -127,8 +127,16 @@ def tlc_goal(module, cfg_base, goal, workdir, *, workers=4, timeout=400, var="hi
     dump = os.path.join(workdir, "goal-%s.json" % goal)
     if os.path.exists(dump):
         os.remove(dump)
-    rc, out, wall = tlc_run(module, cfg, workdir, workers=workers, timeout=timeout,
-                            extra=["-dumpTrace", "json", dump])
+    try:
+        rc, out, wall = tlc_run(module, cfg, workdir, workers=workers, timeout=min(timeout, 150),
+                                extra=["-dumpTrace", "json", dump])
+    except ToolError as ex:
+        # seen three times in seed sweeps: a goal search that normally takes 2 s hangs with several workers (always the same goal,
+        # GoalApplyFilterDrop, under machine load); one retry with a single worker
+        log("  goal %s: %s - retrying with one worker" % (goal, ex))
+        if os.path.exists(dump):
+            os.remove(dump)
+        rc, out, wall = tlc_run(module, cfg, workdir, workers=1, timeout=timeout, extra=["-dumpTrace", "json", dump])
     if not os.path.exists(dump) or ("Invariant %s is violated" % goal) not in out:
         sys.stdout.write(out[-2000:])
         raise ToolError("coverage goal %s of %s not reached (vacuous model or goal)" % (goal, module))
